@@ -159,8 +159,8 @@ def run_fd(ctx, it, blk, trace, **kw):
 
 SINGLE = [('float', 'real'), ('a0', 'real'), ('a1', 'real'), ('a2', 'real'), ('a1', 'cplx'), ('a1', 'vec'), ('c1', 'real'), ('c1', 'cplx')]
 for _ik, _ok in SINGLE:
-    for _opts in ('default', 'all_entries', 'relative', 'ones', 'use_df'):
-        if _opts != 'default' and (_ik, _ok) not in (('a1', 'real'), ('c1', 'cplx'), ('float', 'real')) or (_opts == 'relative' and _ik == 'c1'):
+    for _opts in ('default', 'all_entries', 'relative', 'relative_all_entries', 'ones', 'use_df'):
+        if _opts != 'default' and (_ik, _ok) not in (('a1', 'real'), ('c1', 'cplx'), ('float', 'real')) or (_opts.startswith('relative') and _ik == 'c1'):
             continue
 
         @harness(P, f'finite_difference.single[{_ik}->{_ok},{_opts}]', targets=TARGETS, timeout=20000)
@@ -168,7 +168,7 @@ for _ik, _ok in SINGLE:
             """one module, one input, one output: trace of test_fn = (an from the module's sensitivity, fd from the module's perturbed
             responses at exactly x + h e_idx), zero entries skipped iff keep_zero_structure, exact restoration, nothing left set"""
             x = sym_state(ctx, 'x', ik)
-            if ik == 'float' and opts != 'all_entries':
+            if ik == 'float' and opts not in ('all_entries', 'relative_all_entries'):
                 ctx.assume(x != 0)      # a zero python float is perturbed although keep_zero_structure: finding C19-scalar-zero-perturbed (own harness)
             x_entries0 = list(entries(x))
             sin, sout = mk_signal(it, x), mk_signal(it, None)
@@ -178,9 +178,9 @@ for _ik, _ok in SINGLE:
             kw = {}
             keep_zero = True
             relative = False
-            if opts == 'all_entries':
+            if opts in ('all_entries', 'relative_all_entries'):
                 kw['keep_zero_structure'] = keep_zero = False
-            if opts == 'relative':
+            if opts in ('relative', 'relative_all_entries'):
                 kw['relative_dx'] = relative = True
             if opts == 'ones':
                 kw['random'] = False
